@@ -150,6 +150,59 @@ def check_idwords_stepid(ctx, only_stepid=False):
                 ctx.undec('R-STEPID', fmt, w, 'comparison not recognised: %s' % tt[:60])
 
 
+def check_windcount(ctx, rule='R-WINDCOUNT'):
+    src = ctx.src
+    # ---------------- R-WINDCOUNT: the memmap reader derives the step count from the bytes one step really occupies
+    ctx.rule(rule, 'wind Memmap.py: bytes per time step used for the step count = time header + 2 x layers x data record + dummy record')
+    wmm = src.mod(CAMX + 'wind/Memmap.py')
+    wi = wmm.func('wind.__init__')
+    wwi = 'src/PseudoNetCDF/camxfiles/wind/Memmap.py wind.__init__'
+    from ..sizealg import to_poly as _tp2
+
+    def atomw(n):
+        t = norm(n)
+        if t.endswith('__time_hdr_fmts_size'):
+            return 'H'
+        if t.endswith('__dummy_length'):
+            return 'D'
+        return None
+    envw = {}
+    for st in iter_stmts(wi.body):
+        if isinstance(st, ast.Assign) and len(st.targets) == 1 and isinstance(st.targets[0], ast.Name) and st.targets[0].id in ('record', 'step_size'):
+            try:
+                envw[st.targets[0].id] = _tp2(st.value, dict(envw), atomize=atomw)
+            except Exception:
+                pass
+    want = Poly.atom('H') + 8 + (Poly.atom('rows') * Poly.atom('cols') * 4 + 8) * 2 * Poly.atom('lays') + Poly.atom('D') * 4
+    cand = None
+    for st in iter_stmts(wi.body):
+        # division form: times = rf.length // E
+        if isinstance(st, ast.Assign) and isinstance(st.value, ast.BinOp) and isinstance(st.value.op, ast.FloorDiv) and norm(st.value.left).endswith('rf.length'):
+            cand = (st, st.value.right, 'div')
+        # counting-loop form: total += E inside `while total < rf.length`
+        if isinstance(st, ast.While) and 'rf.length' in norm(st.test):
+            for s2 in st.body:
+                if isinstance(s2, ast.AugAssign) and isinstance(s2.op, ast.Add) and isinstance(s2.target, ast.Name) and s2.target.id in norm(st.test):
+                    cand = (s2, s2.value, 'loop')
+    if cand is None:
+        ctx.undec(rule, 'step count', wwi, 'derivation of the step count from the file length not in a recognised form')
+    else:
+        try:
+            got = _tp2(cand[1], dict(envw), atomize=atomw)
+        except Exception as e:
+            got = None
+        if got is None:
+            ctx.undec(rule, 'step count', wwi, 'step size expression not polynomial: %s' % norm(cand[1])[:60])
+        elif got == want:
+            if cand[2] == 'div':
+                ctx.ok(rule, 'step count', wwi, 'length // (%s)' % got)
+            else:
+                ctx.undec(rule, 'step count', wwi, 'counting loop with the right step size; start value and final adjustment not evaluated')
+        else:
+            ctx.violation(Finding(rule, wmm.relpath, 'wind.__init__', cand[0], 'one time step is taken to occupy %s bytes, but it occupies %s (H = time header, D = dummy record in words): the error '
+                                  'accumulates with the number of steps and long files get a TSTEP dimension that is too long (26 for 25 steps of a 2-layer 3x4 grid)' % (got, want)))
+
+
 def run(ctx):
     for r, d in (('R-FMTTABLE', 'uamiv: struct strings of Read.py == word sequence of the Memmap.py layouts'),
                  ('R-IDWORDS', "met formats: id_fmt 'fi' == memmap usage of words 1:3 (float time, integer date), data 3:-1"),
@@ -376,55 +429,7 @@ def run(ctx):
             else:
                 ctx.violation(Finding('R-WINDSCAN', wr.relpath, 'wind.__gettimestep', st, 'the scan skips %s records but %s records lie between two time headers (as counted for the first '
                                       'step): it lands on a data/dummy record, stops, and files with more than two steps are cut short' % (got, inv)))
-    # ---------------- R-WINDCOUNT: the memmap reader derives the step count from the bytes one step really occupies
-    ctx.rule('R-WINDCOUNT', 'wind Memmap.py: bytes per time step used for the step count = time header + 2 x layers x data record + dummy record')
-    wmm = src.mod(CAMX + 'wind/Memmap.py')
-    wi = wmm.func('wind.__init__')
-    wwi = 'src/PseudoNetCDF/camxfiles/wind/Memmap.py wind.__init__'
-    from ..sizealg import to_poly as _tp2
-
-    def atomw(n):
-        t = norm(n)
-        if t.endswith('__time_hdr_fmts_size'):
-            return 'H'
-        if t.endswith('__dummy_length'):
-            return 'D'
-        return None
-    envw = {}
-    for st in iter_stmts(wi.body):
-        if isinstance(st, ast.Assign) and len(st.targets) == 1 and isinstance(st.targets[0], ast.Name) and st.targets[0].id in ('record', 'step_size'):
-            try:
-                envw[st.targets[0].id] = _tp2(st.value, dict(envw), atomize=atomw)
-            except Exception:
-                pass
-    want = Poly.atom('H') + 8 + (Poly.atom('rows') * Poly.atom('cols') * 4 + 8) * 2 * Poly.atom('lays') + Poly.atom('D') * 4
-    cand = None
-    for st in iter_stmts(wi.body):
-        # division form: times = rf.length // E
-        if isinstance(st, ast.Assign) and isinstance(st.value, ast.BinOp) and isinstance(st.value.op, ast.FloorDiv) and norm(st.value.left).endswith('rf.length'):
-            cand = (st, st.value.right, 'div')
-        # counting-loop form: total += E inside `while total < rf.length`
-        if isinstance(st, ast.While) and 'rf.length' in norm(st.test):
-            for s2 in st.body:
-                if isinstance(s2, ast.AugAssign) and isinstance(s2.op, ast.Add) and isinstance(s2.target, ast.Name) and s2.target.id in norm(st.test):
-                    cand = (s2, s2.value, 'loop')
-    if cand is None:
-        ctx.undec('R-WINDCOUNT', 'step count', wwi, 'derivation of the step count from the file length not in a recognised form')
-    else:
-        try:
-            got = _tp2(cand[1], dict(envw), atomize=atomw)
-        except Exception as e:
-            got = None
-        if got is None:
-            ctx.undec('R-WINDCOUNT', 'step count', wwi, 'step size expression not polynomial: %s' % norm(cand[1])[:60])
-        elif got == want:
-            if cand[2] == 'div':
-                ctx.ok('R-WINDCOUNT', 'step count', wwi, 'length // (%s)' % got)
-            else:
-                ctx.undec('R-WINDCOUNT', 'step count', wwi, 'counting loop with the right step size; start value and final adjustment not evaluated')
-        else:
-            ctx.violation(Finding('R-WINDCOUNT', wmm.relpath, 'wind.__init__', cand[0], 'one time step is taken to occupy %s bytes, but it occupies %s (H = time header, D = dummy record in words): the error '
-                                  'accumulates with the number of steps and long files get a TSTEP dimension that is too long (26 for 25 steps of a 2-layer 3x4 grid)' % (got, want)))
+    check_windcount(ctx)
     # ---------------- R-EODUNIT: one end-of-day constant per record reader (the unit of its time values)
     ctx.rule('R-EODUNIT', 'record readers: every timediff/timeadd/timerange call of one class uses the same end-of-day value (24 for hours, 2400 for HHMM)')
     EODPOS = {'timediff': 2, 'timeadd': 2, 'timerange': 3}
